@@ -1,6 +1,339 @@
-//! C11 — not implemented yet.
+//! C11 — spatial vector functions satisfy their geometric definitions.
+//!
+//! Layout: `lib.rs` (oracle domain, comparison helpers, generators, the per-type forwarding trait),
+//! `generic.rs` (dot / magnitude / distance / normalisation family / predicates, reflected / refracted /
+//! face_forward, angle_between — for every spatial type), `v2.rs` (determine_side, triangle areas),
+//! `v3.rs` (cross, slerp), `v4.rs` (homogenisation).
+//!
+//! Every oracle works on plain arrays in the *oracle domain* `S::O` (`Rat` for `Rat`, `f64` for `f64`/`f32`)
+//! and never calls the vek function it judges. Vectors are built with struct / tuple-struct literals and read
+//! back through the public fields.
+
+use vkit::refmath as rf;
 use vkit::*;
 
+/// Scalar domain together with the domain its oracle is evaluated in.
+pub trait Lift: Dom {
+    type O: Dom;
+    fn lift(self) -> Self::O;
+    /// Square root in the oracle domain when it can be given exactly (floats: correctly rounded f64).
+    fn sqrt_o(x: Self::O) -> Option<Self::O>;
+    /// Nearest value of the domain (exact for `Rat`).
+    fn of_f64(x: f64) -> Self;
+    /// Oracle-domain value back in the scalar domain (identity for Rat / f64, one rounding for f32).
+    fn back(x: Self::O) -> Self;
+}
+impl Lift for Rat {
+    type O = Rat;
+    fn lift(self) -> Rat {
+        self
+    }
+    fn sqrt_o(x: Rat) -> Option<Rat> {
+        x.exact_sqrt()
+    }
+    fn of_f64(x: f64) -> Rat {
+        Rat::from_f64_exact(x)
+    }
+    fn back(x: Rat) -> Rat {
+        x
+    }
+}
+impl Lift for f64 {
+    type O = f64;
+    fn lift(self) -> f64 {
+        self
+    }
+    fn sqrt_o(x: f64) -> Option<f64> {
+        Some(x.sqrt())
+    }
+    fn of_f64(x: f64) -> f64 {
+        x
+    }
+    fn back(x: f64) -> f64 {
+        x
+    }
+}
+impl Lift for f32 {
+    type O = f64;
+    fn lift(self) -> f64 {
+        self as f64
+    }
+    fn sqrt_o(x: f64) -> Option<f64> {
+        Some(x.sqrt())
+    }
+    fn of_f64(x: f64) -> f32 {
+        x as f32
+    }
+    fn back(x: f64) -> f32 {
+        x as f32
+    }
+}
+
+pub fn lift_v<S: Lift, const N: usize>(a: &[S; N]) -> [S::O; N] {
+    let mut r = [<S::O as num_traits::Zero>::zero(); N];
+    for i in 0..N {
+        r[i] = a[i].lift();
+    }
+    r
+}
+
+/// `got` equals `want` (both in the oracle domain): exactly in the exact domain, within
+/// `k * eps(S) * scale` for floats (`scale` is *not* floored at 1: callers pass the magnitude that
+/// bounds the rounding of the operation).
+pub fn near<S: Lift>(cx: &mut Cx, got: S::O, want: S::O, scale: f64, k: f64) -> bool {
+    cx.count();
+    if S::EXACT {
+        got == want
+    } else {
+        let (x, y) = (got.f(), want.f());
+        if x == y {
+            return true;
+        }
+        let tol = (k * S::eps() * scale.abs()).max(f64::MIN_POSITIVE);
+        let d = (x - y).abs();
+        if !d.is_finite() {
+            return false;
+        }
+        cx.note_err(d / tol);
+        d <= tol
+    }
+}
+
+#[macro_export]
+macro_rules! near {
+    ($cx:expr, $S:ty, $got:expr, $want:expr, $scale:expr, $k:expr, $($arg:tt)*) => {{
+        let g = $got;
+        let w = $want;
+        if !$crate::near::<$S>($cx, g, w, $scale as f64, $k as f64) {
+            return Err(vkit::Fail::Violation(format!("{}: got {:?}, want {:?} (scale {:.3e}, k {})", format!($($arg)*), g, w, $scale as f64, $k as f64)));
+        }
+    }};
+}
+/// Array version: `got` is in the scalar domain, `want` in the oracle domain.
+#[macro_export]
+macro_rules! near_vec {
+    ($cx:expr, $S:ty, $got:expr, $want:expr, $scale:expr, $k:expr, $($arg:tt)*) => {{
+        let g = $crate::lift_v::<$S, _>(&$got);
+        let w = $want;
+        for i_ in 0..g.len() {
+            if !$crate::near::<$S>($cx, g[i_], w[i_], $scale as f64, $k as f64) {
+                return Err(vkit::Fail::Violation(format!("{}: lane {} differs: got {:?}, want {:?} (got {:?}, want {:?}; scale {:.3e}, k {})", format!($($arg)*), i_, g[i_], w[i_], g, w, $scale as f64, $k as f64)));
+            }
+        }
+    }};
+}
+
+pub fn vmax<O: Dom, const N: usize>(a: &[O; N]) -> f64 {
+    a.iter().fold(0.0f64, |m, x| m.max(x.f().abs()))
+}
+/// sum |a_i * b_i| as f64 (rounding scale of a dot product)
+pub fn absdot<O: Dom, const N: usize>(a: &[O; N], b: &[O; N]) -> f64 {
+    (0..N).map(|i| (a[i].f() * b[i].f()).abs()).sum()
+}
+pub fn nonzero_count<S: Dom, const N: usize>(a: &[S; N]) -> usize {
+    a.iter().filter(|x| !x.is_zero()).count()
+}
+pub fn neg_v<S: Dom, const N: usize>(a: &[S; N]) -> [S; N] {
+    let mut r = *a;
+    for i in 0..N {
+        r[i] = -a[i];
+    }
+    r
+}
+
+// ---------------------------------------------------------------------------------------------
+// generators
+// ---------------------------------------------------------------------------------------------
+
+/// Arbitrary vector with small rational / moderate float entries.
+pub fn gen_any<S: Dom, const N: usize>(t: &mut Tape) -> [S; N] {
+    vk::gen_vec(t, 9)
+}
+
+/// Rational point of the unit sphere S^(N-1) by inverse stereographic projection of an integer point
+/// (exactly unit in `Rat`, unit up to rounding in floats); the pole lane and the overall sign are tape-chosen.
+pub fn unit_n<S: Dom, const N: usize>(t: &mut Tape) -> [S; N] {
+    let mut p = [0i64; N];
+    let mut s = 0i64;
+    for i in 0..N - 1 {
+        p[i] = t.int(-2, 2);
+        s += p[i] * p[i];
+    }
+    let mut u = [S::zero(); N];
+    for i in 0..N - 1 {
+        u[i] = S::q(2 * p[i], s + 1);
+    }
+    u[N - 1] = S::q(s - 1, s + 1);
+    let r = t.below(N);
+    let neg = t.bool();
+    let mut out = [S::zero(); N];
+    for i in 0..N {
+        let x = u[(i + r) % N];
+        out[i] = if neg { -x } else { x };
+    }
+    out
+}
+
+/// Two orthonormal vectors with rational components: columns `a != b` of the Householder reflection
+/// I - 2 w w^T / (w^T w) for a small non-zero integer vector w.
+pub fn ortho_pair<S: Dom, const N: usize>(t: &mut Tape) -> ([S; N], [S; N]) {
+    let mut w = [0i64; N];
+    let mut ww = 0i64;
+    for i in 0..N {
+        w[i] = t.int(-2, 2);
+        ww += w[i] * w[i];
+    }
+    if ww == 0 {
+        w[0] = 1;
+        ww = 1;
+    }
+    let a = t.below(N);
+    let mut b = t.below(N - 1);
+    if b >= a {
+        b += 1;
+    }
+    let col = |c: usize| {
+        let mut v = [S::zero(); N];
+        for i in 0..N {
+            v[i] = S::q(if i == c { ww } else { 0 } - 2 * w[c] * w[i], ww);
+        }
+        v
+    };
+    (col(a), col(b))
+}
+
+/// A positive length: moderate fractions, powers of two, and small-but-clearly-non-zero values (>= 1e-3).
+pub fn pos_len<S: Dom>(t: &mut Tape) -> S {
+    match t.below(8) {
+        0 => S::q(1, 1 << t.int(1, 6)),
+        1 => S::i(1 << t.int(1, 6)),
+        2 => S::i(1),
+        _ => S::q(t.int(1, 12), t.pick(&[1i64, 1, 2, 3, 5, 7])),
+    }
+}
+
+/// (sin, cos) of a Pythagorean angle in (0, pi/2), as integer triples (opposite, adjacent, hypotenuse).
+pub const PYTH: [(i64, i64, i64); 10] = [(3, 4, 5), (4, 3, 5), (5, 12, 13), (12, 5, 13), (8, 15, 17), (15, 8, 17), (7, 24, 25), (24, 7, 25), (20, 21, 29), (21, 20, 29)];
+
+pub fn scale_s<S: Dom, const N: usize>(a: &[S; N], k: S) -> [S; N] {
+    rf::scale(a, k)
+}
+
+// ---------------------------------------------------------------------------------------------
+// the spatial vector types behind one trait: build / read through the fields, forward to the real methods
+// ---------------------------------------------------------------------------------------------
+
+pub trait Sp<S: Dom, const N: usize>: Copy + std::fmt::Debug {
+    const NAME: &'static str;
+    fn mk(a: [S; N]) -> Self;
+    fn rd(self) -> [S; N];
+    fn k_dot(self, o: Self) -> S;
+    fn k_magnitude_squared(self) -> S;
+    fn k_magnitude(self) -> S;
+    fn k_distance_squared(self, o: Self) -> S;
+    fn k_distance(self, o: Self) -> S;
+    fn k_normalized(self) -> Self;
+    fn k_try_normalized(self) -> Option<Self>;
+    fn k_normalize(&mut self);
+    fn k_normalize_and_get_magnitude(&mut self) -> S;
+    fn k_normalized_and_get_magnitude(self) -> (Self, S);
+    fn k_is_normalized(self) -> bool;
+    fn k_is_approx_zero(self) -> bool;
+    fn k_is_magnitude_close_to(self, x: S) -> bool;
+    fn k_angle_between(self, o: Self) -> S;
+    fn k_reflected(self, n: Self) -> Self;
+    fn k_refracted(self, n: Self, eta: S) -> Self;
+    fn k_face_forward(self, incident: Self, reference: Self) -> Self;
+}
+
+macro_rules! mk_body {
+    (struct $V:ident $a:ident ($($f:ident)+)) => {{ let [$($f),+] = $a; $V { $($f),+ } }};
+    (tuple $V:ident $a:ident ($($f:ident)+)) => {{ let [$($f),+] = $a; $V($($f),+) }};
+}
+macro_rules! rd_body {
+    (struct $V:ident $v:ident ($($f:ident)+) ($($i:tt)+)) => {{ let $V { $($f),+ } = $v; [$($f),+] }};
+    (tuple $V:ident $v:ident ($($f:ident)+) ($($i:tt)+)) => {{ [$($v.$i),+] }};
+}
+
+macro_rules! impl_sp {
+    ($V:ident, $N:expr, $kind:ident, ($($f:ident)+), ($($i:tt)+)) => {
+        impl<S: Dom> Sp<S, $N> for vek::vec::repr_c::$V<S> {
+            const NAME: &'static str = stringify!($V);
+            fn mk(a: [S; $N]) -> Self {
+                use vek::vec::repr_c::$V;
+                mk_body!($kind $V a ($($f)+))
+            }
+            #[allow(unused_imports)]
+            fn rd(self) -> [S; $N] {
+                use vek::vec::repr_c::$V;
+                rd_body!($kind $V self ($($f)+) ($($i)+))
+            }
+            fn k_dot(self, o: Self) -> S { vek::vec::repr_c::$V::<S>::dot(self, o) }
+            fn k_magnitude_squared(self) -> S { vek::vec::repr_c::$V::<S>::magnitude_squared(self) }
+            fn k_magnitude(self) -> S { vek::vec::repr_c::$V::<S>::magnitude(self) }
+            fn k_distance_squared(self, o: Self) -> S { vek::vec::repr_c::$V::<S>::distance_squared(self, o) }
+            fn k_distance(self, o: Self) -> S { vek::vec::repr_c::$V::<S>::distance(self, o) }
+            fn k_normalized(self) -> Self { vek::vec::repr_c::$V::<S>::normalized(self) }
+            fn k_try_normalized(self) -> Option<Self> { vek::vec::repr_c::$V::<S>::try_normalized(self) }
+            fn k_normalize(&mut self) { vek::vec::repr_c::$V::<S>::normalize(self) }
+            fn k_normalize_and_get_magnitude(&mut self) -> S { vek::vec::repr_c::$V::<S>::normalize_and_get_magnitude(self) }
+            fn k_normalized_and_get_magnitude(self) -> (Self, S) { vek::vec::repr_c::$V::<S>::normalized_and_get_magnitude(self) }
+            fn k_is_normalized(self) -> bool { vek::vec::repr_c::$V::<S>::is_normalized(self) }
+            fn k_is_approx_zero(self) -> bool { vek::vec::repr_c::$V::<S>::is_approx_zero(self) }
+            fn k_is_magnitude_close_to(self, x: S) -> bool { vek::vec::repr_c::$V::<S>::is_magnitude_close_to(self, x) }
+            fn k_angle_between(self, o: Self) -> S { vek::vec::repr_c::$V::<S>::angle_between(self, o) }
+            fn k_reflected(self, n: Self) -> Self { vek::vec::repr_c::$V::<S>::reflected(self, n) }
+            fn k_refracted(self, n: Self, eta: S) -> Self { vek::vec::repr_c::$V::<S>::refracted(self, n, eta) }
+            fn k_face_forward(self, incident: Self, reference: Self) -> Self { vek::vec::repr_c::$V::<S>::face_forward(self, incident, reference) }
+        }
+    };
+}
+
+impl_sp!(Vec2, 2, struct, (x y), (0 1));
+impl_sp!(Vec3, 3, struct, (x y z), (0 1 2));
+impl_sp!(Vec4, 4, struct, (x y z w), (0 1 2 3));
+impl_sp!(Extent2, 2, struct, (w h), (0 1));
+impl_sp!(Extent3, 3, struct, (w h d), (0 1 2));
+impl_sp!(Vec8, 8, tuple, (m0 m1 m2 m3 m4 m5 m6 m7), (0 1 2 3 4 5 6 7));
+impl_sp!(Vec16, 16, tuple, (m0 m1 m2 m3 m4 m5 m6 m7 m8 m9 m10 m11 m12 m13 m14 m15), (0 1 2 3 4 5 6 7 8 9 10 11 12 13 14 15));
+impl_sp!(Vec32, 32, tuple,
+    (m0 m1 m2 m3 m4 m5 m6 m7 m8 m9 m10 m11 m12 m13 m14 m15 m16 m17 m18 m19 m20 m21 m22 m23 m24 m25 m26 m27 m28 m29 m30 m31),
+    (0 1 2 3 4 5 6 7 8 9 10 11 12 13 14 15 16 17 18 19 20 21 22 23 24 25 26 27 28 29 30 31));
+impl_sp!(Vec64, 64, tuple,
+    (m0 m1 m2 m3 m4 m5 m6 m7 m8 m9 m10 m11 m12 m13 m14 m15 m16 m17 m18 m19 m20 m21 m22 m23 m24 m25 m26 m27 m28 m29 m30 m31
+     m32 m33 m34 m35 m36 m37 m38 m39 m40 m41 m42 m43 m44 m45 m46 m47 m48 m49 m50 m51 m52 m53 m54 m55 m56 m57 m58 m59 m60 m61 m62 m63),
+    (0 1 2 3 4 5 6 7 8 9 10 11 12 13 14 15 16 17 18 19 20 21 22 23 24 25 26 27 28 29 30 31
+     32 33 34 35 36 37 38 39 40 41 42 43 44 45 46 47 48 49 50 51 52 53 54 55 56 57 58 59 60 61 62 63));
+
+mod generic;
+mod v2;
+mod v3;
+mod v4;
+
 pub fn property() -> Property {
-    Property { id: "C11", rule: "", assumptions: &[], checks: Vec::new(), max_discard_frac: 0.2 }
+    let mut checks: Vec<Check> = Vec::new();
+    generic::checks(&mut checks);
+    v2::checks(&mut checks);
+    v3::checks(&mut checks);
+    v4::checks(&mut checks);
+    Property {
+        id: "C11",
+        rule: "cases are byte tapes generated by proptest (uniform bytes, fixed seed) decoded by constructive generators into labelled classes, plus two exhaustively enumerated integer grids (cross on {-1,0,1}^6, determine_side / areas on {-2..2}^6). \
+metric: non-trivial when the vector whose length is taken has >= 2 non-zero lanes and a != b; surface (reflected / refracted / face_forward): when v and n each have >= 2 non-zero lanes and v.n != 0; \
+angle: when neither operand is axis-aligned; side/area: when the three points are pairwise distinct and not collinear-with-an-axis (determinant of the general 3x3 form with >= 4 non-zero products) or exactly collinear; \
+cross: when a x b != 0 and each operand has >= 2 non-zero lanes; slerp: when the factor is not 0 or 1 and |a| != |b|; homogenise: when w is not 0 or 1 and x,y,z are non-zero; distinct = distinct consumed tape prefix per check",
+        assumptions: &[
+            "rustc and the proptest runner/shrinker are trusted",
+            "oracles are textbook formulas on plain arrays in the oracle domain (Rat for Rat, f64 for f64 and f32): sum of products, Levi-Civita cross product, Leibniz 3x3 determinant for the 2D side test, Kahan's 2*atan2(|a^-b^|, |a^+b^|) for angles, Gram-Schmidt frame for slerp; none calls the vek function it judges",
+            "vectors are built with struct / tuple-struct literals and read back through the public fields",
+            "exact rational arithmetic (Rat over i128); irrational sqrt / acos / i128 overflow poison the case, which is discarded and counted; lengths in Rat are therefore taken of L*u with u a rational point of the unit sphere (inverse stereographic projection) and refraction is evaluated on Householder orthonormal pairs with Pythagorean incidence / refraction angles, so that every radical (incl. sqrt(k) at k = 0) is rational",
+            "angle_between and slerp go through acos and are checked in f64 / f32 only",
+            "float tolerances are k * eps(S) * scale with k and scale stated at each comparison (scale = magnitude bounding the rounding of that operation; acos-based results are widened by the conditioning 1/sin(angle)); max observed error / tolerance is recorded in the evidence",
+            "try_normalized: None is demanded on the exact zero vector, Some(unit, parallel) whenever |v| >= 1e-3; for 0 < |v| < 1e-3 (incl. denormal lengths) nothing is asserted. is_normalized / is_approx_zero / is_magnitude_close_to are asserted only on clear-cut inputs (exact or within 2 eps relative for `true`, off by >= 1e-3 relative for `false`)",
+            "face_forward at reference.incident == 0 (and, in floats, when the sign of the dot product is within rounding of 0): only `result is v or -v` is asserted. refracted in floats: nothing is asserted when |k| is within rounding of 0 (the branch is decided exactly in Rat)",
+            "slerp precondition: endpoints non-zero (0.1 <= |.| <= 10) and neither parallel nor antiparallel (angle in [0.05, pi-0.05]); factor in [-0.5, 1.5]",
+        ],
+        checks,
+        max_discard_frac: 0.1,
+    }
 }
